@@ -16,6 +16,7 @@ def run(ctx):
         "tools/gofacts c01.go: ValidateDiffFloat read statement by statement into Gen/C01.lean (parameter tables, coinbase order, header field order and transformations, version mix as a BitVec 32 expression, difficulty-1 constant, verdict comparison, how ValidateAndAddShare calls it); an unrecognised statement fails the regeneration",
         "Model/Pow.lean interprets those tables; the theorems are about that interpretation and hold for every hash function",
         "correspondence harness harness/validator/verif_c01_test.go: the real ValidateDiffFloat / ValidateDiff in-process vs the model run with the Lean SHA-256 of Base/Sha256.lean (so the Lean SHA-256 is compared with crypto/sha256 on every case), and vs Spec/C01.lean through the monitor",
+        "sessions: the session harness (real Proxy, really mined shares, pools granting narrower masks) runs here too; the monitor's acceptance clause is a C01 violation when it fails",
         "job capture: the validator harness of C19 (harness/validator/verif_c19_test.go: every announcement with its own difficulty, the error text names the job a share was judged by) is run here too and judged by Spec/C19.lean — which announcement's difficulty / extranonce a share is checked against",
         "modelled, not verified: hex.DecodeString / json.Unmarshal with ignored errors, decode_swap, decode_swap_words, LittleEndian.Uint32, big.Int division and Uint64() as described at the top of Model/Pow.lean (tied by the malformed stream of the harness)",
     ]
@@ -87,6 +88,35 @@ def run(ctx):
     else:
         L.compare_transcript(ctx, "c19", "c19.impl.txt", classify_capture, exe, "TestVerifC19$")
         capture_cases = sum(1 for h, _ in L.parse_cases("%s/c19.impl.txt" % ctx.out) if h.endswith("validator"))
+    # 4. the verdict where it is given: whole sessions (real Proxy, fake pools, a miner that mines real shares against what
+    # the pools announced, pools that grant a narrower version mask than the miner asked for); the session monitor's
+    # acceptance clause — accepted exactly when the share meets the difficulty of the job it names, hashed with that pool's
+    # extranonce and the mask negotiated with it — is judged here as well
+    session_verdicts = 0
+    pexe = L.build_harness(ctx, "proxy")
+    if pexe:
+        rc, out = L.run_harness(ctx, pexe, "TestVerifSession$", env={"VERIF_N": 200 if ctx.tier == "quick" else 3000, "VERIF_MAXOPS": 30}, timeout=1500)
+        if rc != 0:
+            ctx.tie_failures.append("session harness run failed (rc=%d): %s" % (rc, out[-300:]))
+        else:
+            scases = dict(L.parse_cases(ctx.out + "/sess.impl.txt"))
+            seen_s = set()
+            for case, c in L.run_monitor(ctx, "sess", "sess.impl.txt"):
+                body, _, op = c.partition(" @ ")
+                if not body.startswith("C02 submit") or ("was refused" not in body and "was accepted although" not in body):
+                    continue
+                sig = "c01:session-verdict-" + ("refused" if "was refused" in body else "accepted")
+                if sig in seen_s:
+                    continue
+                seen_s.add(sig)
+                ops = []
+                for l in scases.get(case, []):
+                    if l.startswith("> "):
+                        ops.append(l)
+                        if l[2:] == op:
+                            break
+                L.violation(ctx, sig, body[4:] + " @ " + op[:120], {"clause": body[4:], "case": case, "ops": ops, "how_to_replay": "bin/check C02 --replay <this file>"})
+            session_verdicts = sum(1 for ls in scases.values() for l in ls if l.startswith("> submit"))
     kinds, outs, nops, distinct = {}, {}, 0, set()
     accepted_nonzero = 0
     for h, lines in cases:
@@ -106,7 +136,7 @@ def run(ctx):
         "evaluations": nops, "distinct_nontrivial": len(distinct),
         "rule": "corpus first (the repository's two real shares and the mined shares of corpus/c01_shares.txt, difficulty >= 1: integer boundaries t-1, t, t+1 through ValidateDiff and ValidateDiffFloat, t+0.5, the float just below t+1); seeded jobs (coinbase 28..200 bytes, 0..12 branches, extranonce1 0..8 bytes, extranonce2 2..8 bytes, masks 1fffe000/0/ffffffff/random, with and without version bits, bits inside and outside the mask, 30% with a nonce mined to difficulty 2^-12..2^-20) with job difficulties aimed at the share's own difficulty (nearest float, next float up/down, x(1+-1e-12), floor, floor+1, 0, denormal, huge, negative, NaN/Inf), `same` ops changing only worker name / job id text / out-of-mask bits, 5-parameter vs 6-parameter submits; a malformed stream (odd / non-hex / short / long fields, wrong JSON types, 0..4 and 7 submit parameters). Distinct = distinct op lines; every op is non-trivial (it computes two SHA-256d)",
         "case_kinds": kinds, "answers": outs, "accepted_at_nonzero_difficulty": accepted_nonzero, "traces_validated_against_impl": len(cases),
-        "job_capture_histories": capture_cases,
+        "job_capture_histories": capture_cases, "session_submits_judged": session_verdicts,
     })
     ctx.samples += [{"case": h, "lines": [l[:200] for l in lines[:4]]} for h, lines in cases[:3]]
 
